@@ -96,3 +96,35 @@ Definition dac_arm_post mm (name : N) (meas : list (N * windows)) (d : N) (dst :
 (* a name is gone from a device *)
 Definition awg_gone (name : N) (ast : awg_st) : bool := negb (has_key name (a_progs ast)).
 Definition dac_gone (name : N) (dst : dac_st) : bool := negb (has_key name (d_wins dst)).
+
+(* ---- the invariant over histories (statements of Props.v are phrased with these) -------------------------------- *)
+(* generator side of the routing invariant, for every generator id (not only the finitely many of a test bench) *)
+Definition routing_inv_awg (dm : dims) (st : state) : Prop :=
+  nodupN (keys (regs st)) = true
+  /\ (forall a, awg_exact dm (chmap st) (regs st) a (awg_of st a) = true)
+  /\ (forall n r, lookup n (regs st) = Some r ->
+                  forall a, memN a (r_awgs r) = uses_awg (chmap st) (r_chans r) a)
+  /\ (forall a, awg_armed_ok (awg_of st a) = true).
+
+Definition routing_inv_dac (st : state) : Prop :=
+  (forall d, dac_exact (mmap st) (regs st) d (dac_of st d) = true)
+  /\ (forall n r, lookup n (regs st) = Some r ->
+                  forall d, memN d (r_dacs r) = uses_dac (mmap st) (r_meas r) d)
+  /\ (forall d, dac_armed_ok (dac_of st d) = true).
+
+(* guard of known finding C18-rewire-stale: the wiring of a name is not changed while a registered program uses it *)
+Definition chan_unused (rg : list (N * reg)) (id : N) : bool :=
+  forallb (fun nr => negb (memN id (r_chans (snd nr)))) rg.
+Definition meas_unused (rg : list (N * reg)) (name : N) : bool :=
+  forallb (fun nr => negb (has_key name (r_meas (snd nr)))) rg.
+Definition guard_C18_rewire_op (st : state) (o : op) : bool :=
+  match o with
+  | OSetChannel id _ _ | ORmChannel id => chan_unused (regs st) id
+  | OSetMeasurement name _ _ => meas_unused (regs st) name
+  | _ => true
+  end.
+Fixpoint guard_C18_rewire (dm : dims) (st : state) (h : list op) : bool :=
+  match h with
+  | [] => true
+  | o :: r => guard_C18_rewire_op st o && guard_C18_rewire dm (fst (step dm st o)) r
+  end.
